@@ -204,6 +204,10 @@ type PropSpec struct {
 	// SeenSelected: the property also says that the route filters and the handler see as the selected
 	// one is the route whose function runs (C01): a stage that saw another one is a counterexample.
 	SeenSelected bool
+	// Near: a further search for a falsifying input around a case on which model and implementation
+	// disagree, specific to the property (C03: the same table in other registration orders); it reports
+	// what it finds itself and returns true when it found a concrete counterexample.
+	Near func(run *report.Run, o Opts, cfg Config, req Req) bool
 }
 
 // humanOf: the readable input of a case, with its history when it has one
@@ -329,6 +333,9 @@ func reportDisagreement(run *report.Run, p PropSpec, st StreamSpec, c *Case) {
 // searchFalsifying evaluates the property's predicate on 2,000 further requests to the table (every
 // fourth one keeps the path and method of req) and reports the first real outcome that falsifies it.
 func searchFalsifying(run *report.Run, p PropSpec, opts Opts, cfg Config, req Req) bool {
+	if p.Near != nil && p.Near(run, opts, cfg, req) {
+		return true
+	}
 	if p.SpecKey == "" {
 		return false
 	}
